@@ -948,3 +948,15 @@ def ufun(name, args, ret_ty):
     if not args:
         return V(ret_ty, z3.Const(_mangle(key) + CTX.tag, CTX.sort(ret_ty)))
     return V(ret_ty, f(*[a.t for a in args]))
+
+
+def concat_all(L):
+    """itertools.chain.from_iterable over a list of lists: an uninterpreted function of the list of lists (the concatenation in order);
+    stated per application: the length is non-negative, no parts -> empty, every part empty -> empty."""
+    assert isinstance(L.ty, List) and isinstance(L.ty.elem, List), L.ty
+    r = ufun("concat_all", [L], L.ty.elem)
+    n = llen(r)
+    CTX.axioms.append(n >= 0)
+    CTX.axioms.append(z3.Implies(llen(L) == 0, n == 0))
+    CTX.axioms.append(z3.Implies(forall_int(0, llen(L), lambda k: llen(lget(L, k)) == 0), n == 0))
+    return r
